@@ -115,7 +115,7 @@ pub fn run(run: &Run) {
     let never = Eng::new(list_env(1, ListKind::Never));
 
     // ---- delegation: result and the (name, value) queries the matcher saw
-    let n = run.opts.size(8_000, 600_000);
+    let n = run.opts.size(80_000, 3_000_000);
     run.parallel("delegation", n, |i, l| {
         let mut r = Rng::derive(seed, "c17-d", i);
         let eng = &envs[r.below(envs.len())];
@@ -199,7 +199,7 @@ pub fn run(run: &Run) {
     });
 
     // ---- random filters mixing list comparisons with everything else (results only)
-    let n = run.opts.size(4_000, 300_000);
+    let n = run.opts.size(40_000, 1_500_000);
     run.parallel("mixed", n, |i, l| {
         let mut r = Rng::derive(seed, "c17-m", i);
         let eng = &envs[r.below(envs.len())];
@@ -225,7 +225,7 @@ pub fn run(run: &Run) {
     });
 
     // ---- list names: valid ones accepted, invalid ones make the filter a parse error
-    let n = run.opts.size(3_000, 100_000);
+    let n = run.opts.size(30_000, 1_000_000);
     run.parallel("names", n, |i, l| {
         let mut r = Rng::derive(seed, "c17-n", i);
         let eng = &envs[r.below(envs.len())];
@@ -314,7 +314,7 @@ pub fn run(run: &Run) {
     });
 
     // ---- built-in always / never lists on all three types
-    let n = run.opts.size(2_000, 100_000);
+    let n = run.opts.size(20_000, 1_000_000);
     run.parallel("builtin", n, |i, l| {
         let mut r = Rng::derive(seed, "c17-b", i);
         let eng = if i % 2 == 0 { &always } else { &never };
@@ -394,7 +394,7 @@ pub fn run(run: &Run) {
     });
 
     // ---- histories: mutate matcher / clear / serialise / deserialise / execute
-    let n = run.opts.size(1_500, 80_000);
+    let n = run.opts.size(15_000, 400_000);
     run.parallel("history", n, |i, l| {
         let mut r = Rng::derive(seed, "c17-h", i);
         let eng = &envs[r.below(envs.len())];
@@ -404,6 +404,22 @@ pub fn run(run: &Run) {
         let mut ctx: ExecutionContext<'static> = eng.ctx(&vals, &model);
         let steps = r.range(6, 20);
         let mut trace: Vec<String> = Vec::new();
+        if r.bool() {
+            // prelude: matcher state is put on a context that holds NO field
+            // value, then clear(), and only then the fields are set
+            let stale = gen_lists(&mut r, env);
+            let nothing: Ctx = vec![None; env.fields.len()];
+            ctx = eng.ctx(&nothing, &stale);
+            ctx.clear();
+            for (k, f) in env.fields.iter().enumerate() {
+                if let Some(v) = &vals[k] {
+                    let field = eng.scheme.get_field(&f.name).unwrap();
+                    ctx.set_field_value(field, v.to_lhs_unwrap()).unwrap();
+                }
+            }
+            trace.push(format!("lists({} sets) on a context without values; clear; set fields", stale.sets.len()));
+            l.count("history_preludes_on_empty_context");
+        }
         for step in 0..steps {
             match r.below(6) {
                 0 | 1 => {
